@@ -70,8 +70,14 @@ def gen_cases(tier, seed):
         if comp and r.random() < 0.6:
             # rank-4 tensors: several candidate index maps per term pair
             names = ['V', 't1', 'Y', 'v', 'g'] + r.sample(['f', 'x', 'd'], 1)
-        first = g.term(nobj=r.randint(2, maxobj) if names else
-                       r.randint(1, maxobj), names=names)
+        unit_diff = comp and r.random() < 0.12
+        if unit_diff:
+            # a single object (trace, partial trace, power) whose two copies get
+            # prefactors differing by exactly 1: the difference of the matched
+            # terms is a bare tensor, not a product
+            names = None
+        first = g.term(nobj=1 if unit_diff else r.randint(2, maxobj) if names
+                       else r.randint(1, maxobj), names=names)
         if first is None:
             continue
         targets = ir.term_targets(first)
@@ -83,7 +89,14 @@ def gen_cases(tier, seed):
             first = ir.rename_term(first, {t0: c0})
             first['objs'].append({'t': 'delta', 'up': [t0, c0]})
         terms = [first]
-        if comp:
+        if comp and unit_diff:
+            t2, sign, _ = g.alpha_rename(first, targets)
+            c1, c2 = r.choice([('2', '1'), ('3/2', '1/2'), ('1/2', '-1/2'),
+                               ('-1', '-2'), ('1', '2'), ('1', '-1')])
+            first['pref'] = c1
+            t2['pref'] = f"({c2})*({sign})"
+            terms.append(t2)
+        elif comp:
             ncopies = r.choice([1, 1, 2])
             for _ in range(ncopies):
                 t2, sign, _ = g.alpha_rename(first, targets)
